@@ -11,3 +11,11 @@ package transactor
 //@   requires ctx: ctx != nil
 //@   modifies *
 //@   ensures rec: world.fnCtx == ctx && world.fnErr == result && world.fnCalls == old(world.fnCalls) + 1
+
+// What every transactor owes: the body runs exactly once and its failure is the call's failure.
+//@ iface Transactor.RunTransaction
+//@   params ctx, fn
+//@   requires ctx: ctx != nil
+//@   modifies *
+//@   ensures once:    world.fnCalls == old(world.fnCalls) + 1
+//@   ensures verdict: world.fnErr != nil ==> result != nil
